@@ -156,6 +156,73 @@ func TestVerifC04(t *testing.T) {
 		}
 	}
 
+	// (2b) INJECTED mid-message states: every chaining value is reachable in principle, but special ones
+	// (a word equal to 0, all words 0, all ones, equal to the IV) only with probability 2^-32 or less
+	// per block. The monitor sets the hash object's internal state directly (in-package access) to
+	// such a value, as if 64*k bytes had been absorbed, and continues the history from there; the
+	// model continues from the same chaining value.
+	{
+		var states [][8]uint32
+		for w := 0; w < 8; w++ {
+			for _, v := range []uint32{0, 0xffffffff, ref.SM3IV[w]} {
+				var h [8]uint32
+				for i := range h {
+					h[i] = uint32(rng.Uint64())
+				}
+				h[w] = v
+				states = append(states, h)
+			}
+		}
+		states = append(states, [8]uint32{}, [8]uint32{0xffffffff, 0xffffffff, 0xffffffff, 0xffffffff, 0xffffffff, 0xffffffff, 0xffffffff, 0xffffffff}, ref.SM3IV)
+		for i := 0; i < hk.N(20, 200); i++ {
+			var h [8]uint32
+			for j := range h {
+				h[j] = uint32(rng.Uint64())
+			}
+			states = append(states, h)
+		}
+		for si, h := range states {
+			for _, blocks := range []uint64{1, 3} {
+				for rep := 0; rep < 4; rep++ {
+					obj := &SM3{h: h, nx: 0, len: 64 * blocks}
+					var rest []byte
+					var hist []string
+					bad := false
+					nops := 1 + rng.Intn(5)
+					for op := 0; op < nops && !bad; op++ {
+						switch rng.Intn(3) {
+						case 0, 1:
+							chunk := rng.Bytes(rng.Pick([]int{0, 1, 55, 56, 63, 64, 65, 100, 128, 200}))
+							n, err := obj.Write(chunk)
+							rest = append(rest, chunk...)
+							hist = append(hist, fmt.Sprintf("W%d", len(chunk)))
+							if err != nil || n != len(chunk) {
+								bad = true
+							}
+						default:
+							got := obj.Sum(nil)
+							hist = append(hist, "S")
+							if !bytes.Equal(got, ref.SM3Continue(h, 64*blocks, rest)) {
+								bad = true
+							}
+						}
+					}
+					if !bad && !bytes.Equal(obj.Sum(nil), ref.SM3Continue(h, 64*blocks, rest)) {
+						bad = true
+					}
+					if bad {
+						r.Violation("sum-wrong-from-injected-chaining-value", hk.D{"chaining_value": fmt.Sprintf("%08x", h), "absorbed_blocks": blocks, "history": hist, "rest": hk.Hex(trunc(rest))})
+					}
+					cls := "random"
+					if si < 27 {
+						cls = fmt.Sprintf("special%d", si)
+					}
+					r.Eval("injected-state:" + cls)
+				}
+			}
+		}
+	}
+
 	// (3) through io.Copy / io.Writer plumbing, the way callers use hash.Hash.
 	for i := 0; i < hk.N(300, 3000); i++ {
 		n := rng.Intn(5000)
